@@ -97,7 +97,10 @@ func ruleForgetAndRetry(c *eng.Ctx) {
 		}
 		var forget []ssa.CallInstruction
 		for _, f := range c.P.WithLits(fn) {
-			forget = append(forget, c.P.CallsTo(f, pkgCache+".(*Cache).Forget")...)
+			// directly, or through a small helper of the module that does the forgetting
+			forget = append(forget, callsReaching(c, f, 2, func(call ssa.CallInstruction) bool {
+				return c.P.CalleeName(call) == pkgCache+".(*Cache).Forget"
+			})...)
 		}
 		noCache := eng.NewCut()
 		if cacheF != nil {
